@@ -1,36 +1,41 @@
-package validatorapi
+package parsigex
 
-// C10, validator-client path – PAIR dimension: several entries of ONE request that are invalid TOGETHER.
+// C10, peer path – PAIR dimension: several entries of ONE set that are invalid TOGETHER.
 //
-// Every endpoint whose request carries a list receives requests with exactly two entries, one for each validator of
-// the cluster, for the same slot (and, where the type allows it, with the same signing root: identical attestation data,
-// identical beacon block root). Each of the two positions independently carries one signature of the alphabet
+// For every duty type a peer message with exactly two entries, one for each validator of the cluster, for the same
+// slot (and, where the type allows it, with the same signing root: identical attestation data, identical beacon block
+// root, same slot / epoch / subcommittee). Each of the two entries independently carries one signature of the alphabet
 //
-//	valid         the node's own share of that validator over the entry's own signing root
+//	valid         the sending peer's share of that validator over the entry's own signing root
 //	swap          the VALID signature of the other entry (entry A carries sig_B, entry B carries sig_A)
 //	otherval      the same share index of the OTHER validator over this entry's own signing root
 //	plusD/minusD  sig + D / sig - D, D = a signature over a third message (group addition of signatures)
 //	othercontent  the own share over other content
 //	zero          the zero signature
 //
-// in both list orders. Pairs such as (swap, swap) and (plusD, minusD) are invalid entry by entry but the SUM of the two
-// signatures equals the sum of the two valid ones: code that verifies "the request" / "the set" with one aggregate
-// check admits them, code that verifies each entry does not. The oracle is per entry: an entry whose own signature
-// does not verify for its own root, domain, epoch, validator and share must not reach a subscriber; a request whose two
-// entries both fail must be answered with an error and no subscriber call; a request whose two entries both verify must be
-// delivered; whether the valid entry of a mixed request is delivered is not judged.
+// in both wire orders of the protobuf map and under both pinned iteration orders of the decoded Go map. Pairs such as
+// (swap, swap) and (plusD, minusD) are invalid entry by entry but the SUM of the two signatures equals the sum of the
+// two valid ones: code that verifies "the set" with one aggregate check admits them, code that verifies each entry does
+// not. The oracle is per entry: an entry whose own signature does not verify for its own root, domain, epoch, validator
+// and share must not reach a subscriber; a set whose two entries both fail must be answered with an error and no
+// subscriber call; a set whose two entries both verify must be delivered (proposer sets: two proposals under one slot
+// never occur in an honest cluster, their delivery is not demanded); whether the valid entry of a mixed set is delivered
+// is not judged.
 //
-// The section between "C10 PAIR COMMON BEGIN/END" is duplicated verbatim in core/parsigex/zz_verif_c10p_test.go.
+// The section between "C10 PAIR COMMON BEGIN/END" is duplicated verbatim from core/validatorapi/zz_verif_c10p_test.go.
 
 import (
 	"fmt"
 	"math/big"
 	"strings"
 
+	eth2api "github.com/attestantio/go-eth2-client/api"
 	eth2spec "github.com/attestantio/go-eth2-client/spec"
 	"github.com/attestantio/go-eth2-client/spec/altair"
 	eth2p0 "github.com/attestantio/go-eth2-client/spec/phase0"
 
+	"github.com/obolnetwork/charon/core"
+	pbv1 "github.com/obolnetwork/charon/core/corepb/v1"
 	"github.com/obolnetwork/charon/tbls"
 	"github.com/obolnetwork/charon/testutil"
 	"github.com/obolnetwork/charon/zzverif/enumx"
@@ -210,37 +215,84 @@ func c10pairCount(r *enumx.Run, path string, valid [2]bool, p c10pairSig, delive
 
 // ===================================== C10 PAIR COMMON END =====================================
 
-// pairItems builds the two unsigned entries (validator 0, validator 1) of a pair.
-func (h *c10vapi) pairItems(e c10endpoint, variant string) (items [2]any, err error) {
-	ver := strings.TrimSuffix(e.Ver, "-blinded")
-	for i := 0; i < 2; i++ {
-		if items[i], err = h.cl.c10build(e.Kind, ver, h.cl.vals[i]); err != nil {
-			return items, err
+// pairEntries builds the two entries (validator 0, validator 1) of a pair set, signed as alts says.
+func (h *c10peerH) pairEntries(u c10punit, variant string, alts [2]string) (ents [2]c10pent, p c10pairSig, sds [2]c10sd, err error) {
+	cl := h.cl
+	vs := [2]*c10val{cl.vals[0], cl.vals[1]}
+	if u.Duty == core.DutySignature { // bare signatures: no content of their own, nothing of this duty type is admissible
+		for i := range sds {
+			sds[i] = c10sd{Kind: "RANDAO", Root: testutil.RandomRoot(), Epoch: c10Epoch}
+		}
+		if p, err = cl.c10pairSigs(c10Peer, vs, sds, alts); err != nil {
+			return ents, p, sds, err
+		}
+		for i, v := range vs {
+			ents[i] = c10pent{string(v.PK), core.Signature(append([]byte(nil), p.Sigs[i][:]...)), c10Peer}
+		}
+		return ents, p, sds, nil
+	}
+	var items [2]any
+	for i, v := range vs {
+		if items[i], err = cl.c10build(u.Kind, u.Ver, v); err != nil {
+			return ents, p, sds, err
 		}
 	}
-	if variant != "same-root" {
-		return items, nil
-	}
-	switch a := items[0].(type) {
-	case *eth2spec.VersionedAttestation: // both validators attest to the same data (same slot, same committee)
-		sa, err := c10versioned(a, "")
+	switch b := items[1].(type) { // one duty, one slot: validator 1's proposal is for the slot of the duty as well
+	case *eth2api.VersionedSignedProposal:
+		s, err := c10signedBlock(b)
 		if err != nil {
-			return items, err
+			return ents, p, sds, err
 		}
-		sb, err := c10versioned(items[1], "")
+		c10setMsgIDs(s, vs[0].PropSlot, vs[1].Idx)
+	case *eth2api.VersionedSignedBlindedProposal:
+		s, err := c10signedBlock(c10blinded2signed(b))
 		if err != nil {
-			return items, err
+			return ents, p, sds, err
 		}
-		sb.FieldByName("Data").Set(c10deep(sa.FieldByName("Data")))
-	case *altair.SyncCommitteeMessage:
-		items[1].(*altair.SyncCommitteeMessage).BeaconBlockRoot = a.BeaconBlockRoot
+		c10setMsgIDs(s, vs[0].PropSlot, vs[1].Idx)
 	}
-	return items, nil
+	if variant == "same-root" {
+		switch a := items[0].(type) {
+		case *eth2spec.VersionedAttestation: // both validators attest to the same data (same slot, same committee)
+			sa, err := c10versioned(a, "")
+			if err != nil {
+				return ents, p, sds, err
+			}
+			sb, err := c10versioned(items[1], "")
+			if err != nil {
+				return ents, p, sds, err
+			}
+			sb.FieldByName("Data").Set(c10deep(sa.FieldByName("Data")))
+		case *altair.SyncCommitteeMessage:
+			items[1].(*altair.SyncCommitteeMessage).BeaconBlockRoot = a.BeaconBlockRoot
+		}
+	}
+	for i := range items {
+		if sds[i], err = c10info(items[i]); err != nil {
+			return ents, p, sds, err
+		}
+	}
+	if p, err = cl.c10pairSigs(c10Peer, vs, sds, alts); err != nil {
+		return ents, p, sds, err
+	}
+	for i, v := range vs {
+		f, err := c10sigField(items[i])
+		if err != nil {
+			return ents, p, sds, err
+		}
+		*f = p.Sigs[i]
+		d, err := c10wrap(items[i])
+		if err != nil {
+			return ents, p, sds, err
+		}
+		ents[i] = c10pent{string(v.PK), d, c10Peer}
+	}
+	return ents, p, sds, nil
 }
 
-// runPair builds one pair request from scratch, submits it and judges it entry by entry.
-// Case: Alt "pair-<v0's entry>-<v1's entry>", Field = variant, FAlt = list order.
-func (h *c10vapi) runPair(r *enumx.Run, e c10endpoint, c c10case) *c10viol {
+// runPair builds one pair set from scratch, hands it to handle and judges it entry by entry.
+// Case: Alt "pair-<v0's entry>-<v1's entry>", Field = variant, FAlt = "<wire order>/rot<n>", Rot = n.
+func (h *c10peerH) runPair(r *enumx.Run, u c10punit, c c10case) *c10viol {
 	cl := h.cl
 	note := func(s string) {
 		if r != nil {
@@ -252,168 +304,121 @@ func (h *c10vapi) runPair(r *enumx.Run, e c10endpoint, c c10case) *c10viol {
 		note("bad alteration")
 		return nil
 	}
-	items, err := h.pairItems(e, c.Field)
+	ents, p, _, err := h.pairEntries(u, c.Field, alts)
 	if err != nil {
 		note(err.Error())
 		return nil
 	}
-	vs := [2]*c10val{cl.vals[0], cl.vals[1]}
-	var sds [2]c10sd
-	for i := range items {
-		if sds[i], err = c10info(items[i]); err != nil {
-			note(err.Error())
-			return nil
-		}
-	}
-	p, err := cl.c10pairSigs(c10Self, vs, sds, alts)
-	if err != nil {
-		note(err.Error())
-		return nil
-	}
-	if p.SameRoot != (c.Field == "same-root") {
+	if p.SameRoot != (c.Field == "same-root") && u.Duty != core.DutySignature {
 		note("the signing roots of the two entries are not as the variant says")
 		return nil
 	}
+	order := []c10pent{ents[0], ents[1]}
+	if strings.HasPrefix(c.FAlt, "v1-first") {
+		order = []c10pent{ents[1], ents[0]}
+	}
+	m, err := c10message(&pbv1.Duty{Slot: h.slotOf(u, cl.vals[0]), Type: int32(u.Duty)}, order)
+	if err == nil {
+		m, err = c10wire(m)
+	}
+	if err != nil {
+		note(err.Error())
+		return nil
+	}
+	// the independent oracle, entry by entry, on what is on the wire
+	vs := [2]*c10val{cl.vals[0], cl.vals[1]}
 	var valid [2]bool
-	for i := range items {
-		f, err := c10sigField(items[i])
-		if err != nil {
-			note(err.Error())
-			return nil
+	_, set := h.expect(m)
+	for i, v := range vs {
+		if ps, ok := set[v.PK]; ok {
+			valid[i] = h.entryValid(v.PK, ps)
 		}
-		*f = p.Sigs[i]
-		var who *c10val
-		if e.NoSubs { // nothing is ever forwarded: the request does not need to identify a validator for this node
-			sd := sds[i]
-			sd.Sig = p.Sigs[i]
-			valid[i] = cl.verifies(sd, cl.lock[vs[i].PK][c10Self])
-		} else if valid[i], who = h.itemValid(items[i]); who != vs[i] {
-			note("the harness does not identify the validator of its own entry")
-			return nil
-		}
-		if valid[i] != (alts[i] == "valid") { // every other letter of the alphabet is meant to be invalid on its own
+		if valid[i] != (alts[i] == "valid" && u.Duty != core.DutySignature) { // every other letter is meant to be invalid on its own
 			note(fmt.Sprintf("entry %d (%s) is judged valid=%v by the independent oracle", i, alts[i], valid[i]))
 			return nil
 		}
 	}
-	h.agreed, h.extraProp = nil, nil
-	req := e.request(items[0], items[1])
-	if c.FAlt == "v1-first" {
-		req = e.request(items[1], items[0])
+	mode := "auto" // both invalid: error and no subscriber call
+	switch {
+	case valid[0] && valid[1]:
+		mode = "baseline"
+		if u.Duty == core.DutyProposer || c10optional(u.Kind, u.Ver) {
+			mode = "observe" // two proposals under one slot: delivery is not demanded
+		}
+	case valid[0] || valid[1]:
+		mode = "observe"
 	}
 	if r != nil {
 		r.Eval(c.key())
 	}
-	err, calls, panicked := h.submit(e, req)
-	h.lastErr = err
+	v := h.judge(r, u, m, mode, c.Rot)
 	if r != nil {
-		r.Steps(1)
-		if panicked {
-			r.Count("vapi_handler_panics", 1)
-			r.Note("a handler panicked on a pair request (counted as rejection): " + e.unit() + ": " + err.Error())
-		}
-		c10pairCount(r, "vapi", valid, p, len(calls) > 0)
+		c10pairCount(r, "peer", valid, p, len(h.calls) > 0)
 	}
-	if v := h.checkDelivered(e, calls); v != nil {
+	if v != nil {
 		return v
 	}
-	if e.NoSubs {
-		if len(calls) > 0 {
-			return &c10viol{"kind=forwarded-by-ignoring-endpoint", "an endpoint documented to ignore submissions called subscribers"}
-		}
-		return nil
-	}
-	for _, call := range calls { // per entry: the entry of validator i reached a subscriber although it does not verify
-		for i, v := range vs {
-			if _, ok := call.set[v.PK]; ok && !valid[i] {
-				return &c10viol{"kind=invalid-admitted", fmt.Sprintf("subscriber %d received an entry for validator %s whose submitted signature (%s) does not verify for its own root, domain, epoch, validator and share", call.sub, v.Name, alts[i])}
-			}
-		}
-	}
-	switch {
-	case !valid[0] && !valid[1]:
-		if len(calls) > 0 {
-			return &c10viol{"kind=invalid-admitted", fmt.Sprintf("a request whose two entries both fail verification reached %d subscriber call(s) (sum of the two signatures equals the valid sum: %v)", len(calls), p.SumEqual)}
-		}
-		if err == nil {
-			return &c10viol{"kind=invalid-no-error", fmt.Sprintf("a request whose two entries both fail verification was answered without an error (sum of the two signatures equals the valid sum: %v)", p.SumEqual)}
-		}
-	case valid[0] && valid[1]:
-		if err != nil {
-			return &c10viol{"kind=valid-rejected", fmt.Sprintf("the request with two valid entries was rejected: %v", err)}
-		}
-		if len(calls) != 2 {
-			return &c10viol{"kind=valid-not-delivered", fmt.Sprintf("the request with two valid entries produced %d subscriber calls, want one per subscriber", len(calls))}
-		}
-		for _, call := range calls {
-			same := len(call.set) == 2 && call.duty.Type == e.Duty
-			for i, v := range vs {
-				ps, ok := call.set[v.PK]
-				got, ierr := c10info(ps.SignedData)
-				want := sds[i]
-				want.Sig = p.Sigs[i]
-				same = same && ok && ierr == nil && ps.ShareIdx == c10Self && got == want
-			}
-			if !same {
-				return &c10viol{"kind=valid-delivered-differently", fmt.Sprintf("subscriber %d got duty %v set %v; want exactly the two submitted partial signatures, share %d", call.sub, call.duty, call.set, c10Self)}
+	for _, call := range h.calls { // per entry: the entry of validator i reached a subscriber although it does not verify
+		for i, val := range vs {
+			if _, ok := call.set[val.PK]; ok && !valid[i] {
+				return &c10viol{"kind=invalid-admitted", fmt.Sprintf("subscriber %d received an entry for validator %s whose signature (%s) does not verify for its own root, domain, epoch, validator and share", call.sub, val.Name, alts[i])}
 			}
 		}
 	}
 	return nil
 }
 
-func (h *c10vapi) evalPair(r *enumx.Run, e c10endpoint, c c10case) {
-	c.Path, c.Unit = "vapi-pair", e.unit()
+func (h *c10peerH) evalPair(r *enumx.Run, u c10punit, c c10case) {
+	c.Path, c.Unit = "peer-pair", u.unit()
 	sig := func(v *c10viol) *c10viol {
 		if v != nil {
 			v.sig = c10signature(c10case{Path: c.Path, Unit: c.Unit, Alt: "pair"}, v.sig)
-			v.desc = fmt.Sprintf("pair request %s (%s, %s): %s", c.Alt, c.Field, c.FAlt, v.desc)
+			v.desc = fmt.Sprintf("pair set %s (%s, %s): %s", c.Alt, c.Field, c.FAlt, v.desc)
 		}
 		return v
 	}
-	if v := sig(h.runPair(r, e, c)); v != nil {
-		c10report(r, c, v, func() *c10viol { return sig(h.runPair(nil, e, c)) })
+	if v := sig(h.runPair(r, u, c)); v != nil {
+		c10report(r, c, v, func() *c10viol { return sig(h.runPair(nil, u, c)) })
 	}
 }
 
-// c10vapiPairs: every list endpoint x variant x list order x alphabet^2.
-func c10vapiPairs(r *enumx.Run, h *c10vapi) {
-	if err := h.cl.c10pairSelfTest(c10Self); err != nil {
+// c10peerPairs: every unit x variant x wire order x map rotation x alphabet^2.
+func c10peerPairs(r *enumx.Run, h *c10peerH) {
+	if err := h.cl.c10pairSelfTest(c10Peer); err != nil {
 		r.NotExhaustive("harness: pair dimension skipped, the signature arithmetic of the harness is off: " + err.Error())
 		return
 	}
 	n := 0
-	for _, e := range c10endpoints(enumx.Thorough()) {
-		if !e.List {
-			continue
-		}
-		for _, variant := range c10pairVariants(e.Kind) {
+	for _, u := range c10punits(enumx.Thorough()) {
+		for _, variant := range c10pairVariants(u.Kind) {
 			for _, order := range []string{"v0-first", "v1-first"} {
-				n++
-				if !r.Mine() {
-					continue
-				}
-				if r.Expired() {
-					return
-				}
-				for _, a := range c10pairAlts {
-					for _, b := range c10pairAlts {
-						h.evalPair(r, e, c10case{Alt: "pair-" + a + "-" + b, Field: variant, FAlt: order})
+				for rot := 0; rot < 2; rot++ {
+					n++
+					if !r.Mine() {
+						continue
 					}
-				}
-				if n == 1 {
-					r.Sample(map[string]any{"path": "vapi-pair", "unit": e.unit(), "variant": variant, "order": order, "alphabet": c10pairAlts})
+					if r.Expired() {
+						return
+					}
+					for _, a := range c10pairAlts {
+						for _, b := range c10pairAlts {
+							h.evalPair(r, u, c10case{Alt: "pair-" + a + "-" + b, Field: variant, FAlt: fmt.Sprintf("%s/rot%d", order, rot), Rot: rot})
+						}
+					}
+					if n == 1 {
+						r.Sample(map[string]any{"path": "peer-pair", "unit": u.unit(), "variant": variant, "order": order, "maprot": rot, "alphabet": c10pairAlts})
+					}
 				}
 			}
 		}
 	}
-	r.Note(fmt.Sprintf("vapi pairs: %d (endpoint unit, variant, list order) combinations x %d x %d signatures", n, len(c10pairAlts), len(c10pairAlts)))
+	r.Note(fmt.Sprintf("peer pairs: %d (unit, variant, wire order, map rotation) combinations x %d x %d signatures", n, len(c10pairAlts), len(c10pairAlts)))
 }
 
-func c10vapiPairReplay(r *enumx.Run, h *c10vapi, c c10case) {
-	for _, e := range c10endpoints(true) {
-		if e.unit() == c.Unit && e.List {
-			h.evalPair(r, e, c)
+func c10peerPairReplay(r *enumx.Run, h *c10peerH, c c10case) {
+	for _, u := range c10punits(true) {
+		if u.unit() == c.Unit {
+			h.evalPair(r, u, c)
 		}
 	}
 }
